@@ -35,7 +35,10 @@ def run_case(case, ctx):
     cfg = CFG.from_json(case["g"])
     lexkind = case["lex"]
     lex = Lexicon(cfg.terms)
-    text_g = cfg.to_parglare()
+    # optionally a LAYOUT rule that matches exactly what the default ws does: the language and every table
+    # property stay what they are, but the parser now builds two tables from one Grammar object
+    text_g = cfg.to_parglare(extra_rules="LAYOUT: LI | LAYOUT LI | EMPTY;\nLI: WS;", extra_terminals="WS: /\\s+/;") \
+        if case.get("layout_rule") else cfg.to_parglare()
     if lexkind == "L0":
         inputs = [G.render(w, case["fill"], k)
                   for k, w in enumerate(G.l0_inputs(cfg, case["max_len"], junk_upto=2))]
@@ -131,7 +134,7 @@ def _case(gstrat, lex):
     def c(draw):
         g = draw(gstrat)
         nterm = len(g["terms"])
-        return {"g": g, "lex": lex, "fill": draw(FILL),
+        return {"g": g, "lex": lex, "fill": draw(FILL), "layout_rule": lex == "L0" and draw(st.integers(0, 3)) == 0,
                 "max_len": (5 if nterm <= 2 else 4) if lex == "L0" else 5}
     return c()
 
